@@ -106,6 +106,22 @@ func c19Fmt(l []string, sep string) string {
 	return strings.Join(parts, sep)
 }
 
+// "same" if the slice passed to a function still holds what it held before the call
+func c19Same(before, after []string) string {
+	if len(before) == len(after) {
+		eq := true
+		for i := range before {
+			if before[i] != after[i] {
+				eq = false
+			}
+		}
+		if eq {
+			return "same"
+		}
+	}
+	return "changed:" + c19Fmt(after, ",")
+}
+
 func c19NS(s string) map[string]bool {
 	ns := map[string]bool{}
 	for _, n := range c19List(s) {
@@ -178,10 +194,24 @@ func init() {
 				again = append([]string{}, r1...)
 			}
 			return "NN " + s1 + " | " + show(normalizeTags(again))
-		case "F": // F <namespaces> <tags>
-			return "F " + c19Fmt(filterRestrictedTags(c19List(w[2]), c19NS(w[1])), ",")
-		case "R": // R <namespaces> <old> <new>
-			return "R " + vB2s(restrictedTagsEqual(c19List(w[2]), c19List(w[3]), c19NS(w[1])))
+		case "F": // F <namespaces> <tags>; then what the call did to the caller's slice
+			arg := c19List(w[2])
+			res := filterRestrictedTags(arg, c19NS(w[1]))
+			out := "F " + c19Fmt(res, ",")
+			return out + " " + c19Same(c19List(w[2]), arg)
+		case "R": // R <namespaces> <old> <new>; then what the call did to the caller's slices
+			o, n := c19List(w[2]), c19List(w[3])
+			// as in replySetTags: the old list is the topic's cached tags, with spare capacity or without
+			res := restrictedTagsEqual(o, n, c19NS(w[1]))
+			same := c19Same(c19List(w[2]), o)
+			if same == "same" {
+				same = c19Same(c19List(w[3]), n)
+			}
+			return "R " + vB2s(res) + " " + same
+		case "D": // D <old> <new>: stringSliceDelta, then the two argument slices as the call left them
+			o, n := c19List(w[1]), c19List(w[2])
+			added, removed, inter := stringSliceDelta(o, n)
+			return "D " + c19Fmt(added, ",") + " " + c19Fmt(removed, ",") + " " + c19Fmt(inter, ",") + " " + c19Fmt(o, ",") + " " + c19Fmt(n, ",")
 		case "G": // G <masked namespaces> <own tags> <search terms>: the gate of topic.go:2434-2442
 			restr, _, _ := stringSliceDelta(c19List(w[2]), filterRestrictedTags(c19List(w[3]), c19NS(w[1])))
 			return "G " + vB2s(len(restr) == 0)
